@@ -33,6 +33,7 @@ class Res:
         self.stderr = ""
         self.obs = []
         self.f25 = None
+        self.exclbad = None
         self.mainwrites = []
         self.rc = 0
 
@@ -75,6 +76,8 @@ def parse(out_lines):
             cur.f25 = ln
         elif ln.startswith("obs "):
             cur.obs.append(ln[4:])
+        elif ln.startswith("exclbad "):
+            cur.exclbad = ln
         elif ln == "end":
             cur.complete = True
     return res
@@ -251,6 +254,10 @@ def check_history(r, shared_ids, want_final=True):
     calls consistent with real time (hence with each thread's program order), and the final dump is the
     state that order ends in.  Returns list of (class, message)."""
     probs = []
+    if getattr(r, "exclbad", None):
+        w = r.exclbad.split()
+        probs.append(("excl-with-workers", "exclusive access to the store was taken %s time(s) while %s worker(s) (open cursors / calls in progress) "
+                      "were still registered: an exclusive call did not wait for them" % (w[1], w[2])))
     regs = {}       # (db, key) -> [op]
     meta = {}       # db -> [op]
     privdb = {}     # (tid, slot) -> dict(id, map, cursorkey)
